@@ -252,6 +252,63 @@ theorem works_on_endless (ds : List Desc) (hv : ∀ d ∈ ds, d.Valid) (s : Seq 
   rw [outs_eq, List.length_take, run_eq, List.length_append]
   omega
 
+/-! ## 6. Auxiliary sources (stream-valued parameters) are read lazily too
+
+Lock-step auxiliary streams (second operand of a binary operator, `izip` partners, filter
+coefficient streams, `modulo_counter` / `sinusoid` / `TableLookup` arguments, stream-valued
+cut-offs) are covered by `lockstep_two_sources`: the stage is a stage over the PAIR source, one
+pull counter serves both.  A Streamix event's data is `need_streamix`.  `resample` with a
+stream-valued `old`/`new` is a genuine two-source machine: the step stream is read at its own
+rate — `k - 1` values for `k` outputs, the step being fetched AFTER the `yield`. -/
+
+/-- **C02.6a** step stream of `resample`: nothing at construction, and the first `k` outputs need
+exactly `k - 1` step values (output #0 is the first input sample and needs none). -/
+theorem need_resample_step (order : Nat) (steps : List Rat) (k : Nat) (hk : k - 1 ≤ steps.length) :
+    (rsStepS order).start.nread = 0 ∧ (rsStepS order).need steps k = some (k - 1) :=
+  ⟨rfl, hasNeed_rsStepS order steps k hk⟩
+
+/-- **C02.6b** both counters of the two-source machine under the generator protocol: after the
+`(k+1)`-th `next()` exactly `k` step values have been pulled and the signal source has been read
+`order/2 + 1 + ceil(step₀ + … + step_{k-1} - frac)` times, for every non-negative step stream. -/
+theorem resample_two_source (order : Nat) (steps : List Rat) (hs : ∀ s ∈ steps, 0 ≤ s)
+    (K k : Nat) (hk : k < K) (hlen : k ≤ steps.length) :
+    (rsTwoSource order steps K)[k]? = some (needResampleTV order steps (k + 1), k) :=
+  rsTwoSource_getElem order steps hs K k hk hlen
+
+/-- **C02.6c** the same machine seen from the signal source (the stage used in chains): `k`
+outputs read `needResampleTV` items. -/
+theorem need_resample_tv (order : Nat) (steps : List Rat) (hs : ∀ s ∈ steps, 0 ≤ s)
+    (xs : List α) (k : Nat) (hlen : needResampleTV order steps k ≤ xs.length) :
+    (resampleTVS order steps).need xs k = some (needResampleTV order steps k) :=
+  hasNeed_resampleTVS order steps hs xs k hlen
+
+/-- **C02.6d** a constant step is the step stream that repeats one value: same signal reads. -/
+theorem resample_tv_const (order : Nat) (step : Rat) (n k : Nat) (hk : k ≤ n + 1) :
+    needResampleTV order (List.replicate n step) k = needResample order step k :=
+  needResampleTV_const order step n k hk
+
+/-- **C02.6e** non-interference for the step stream: the first `k` outputs (with the signal reads
+they cost) are a function of the first `k - 1` step values; a step stream that differs, ends or
+raises from its `k`-th value on is not noticed. -/
+theorem resample_step_nonInterference (order : Nat) (steps steps' : List Rat) (k : Nat)
+    (hk : k - 1 ≤ steps.length) (hagree : steps.take (k - 1) = steps'.take (k - 1)) :
+    (rsStepS order).need steps' k = some (k - 1) ∧
+    ((rsStepS order).run steps').take k = ((rsStepS order).run steps).take k :=
+  Stage.nonInterference (rsStepS order) steps steps' k (k - 1) (hasNeed_rsStepS order steps k hk) hagree
+
+/-- **C02.6f** the loop that fetches the step in its header (`for delta in steps: yield …`) is a
+different machine: it needs `k` step values for `k` outputs — one too early at every output. -/
+theorem eager_step_loop_needs_k (order : Nat) (steps : List Rat) (k : Nat) (hk : k ≤ steps.length) :
+    (rsStepEagerS order).need steps k = some k := hasNeed_rsStepEagerS order steps k hk
+
+/-- **C02.6g** data of a Streamix event with absolute time `delta` (the rule used for every event
+source of the mixer): not read before output `ceil(delta - 1/2)`, then once per output. -/
+theorem need_event_source (delta : Rat) (zero : α) (xs : List α) (k : Nat)
+    (hlen : auxNeedEvent delta k ≤ xs.length) :
+    (smixS delta zero).need xs k = some (auxNeedEvent delta k) := by
+  have := hasNeed_smixS delta zero xs k (by rw [smixStart_eq]; exact hlen)
+  rwa [smixStart_eq] at this
+
 /-! ## non-vacuity: hypotheses satisfiable on non-trivial inputs -/
 
 example : (skipS 2 ▷ mapS (· + 1)).need [10, 20, 30, 40, 50] 2 = some 4 := by decide
@@ -273,6 +330,16 @@ example : (Seq.ofFn (fun n => n * n)).take 4 = [0, 1, 4, 9] := by decide
 example : (Seq.ofFn (fun (_ : Nat) => ())).Endless := fun _ h => by cases h
 example : (scanS (fun (m : Nat) (p : Nat × Nat) => (p.1, m + p.1 * p.2)) 0).need
     ([1, 2, 3].zip [4, 5, 6]) 2 = some 2 := by decide
+example : rsTwoSource 1 [1/2, 1/2, 2, 1/4] 5 = [(1, 0), (2, 1), (2, 2), (4, 3), (5, 4)] := by
+  unfold rsTwoSource; rw [outs_eq, pulls_eq]; decide +kernel
+example : (rsStepS 1).pulls [1/2, 1/2, 2, 1/4] 5 = [0, 1, 2, 3, 4] ∧
+    (rsStepEagerS 1).pulls [1/2, 1/2, 2, 1/4] 4 = [1, 2, 3, 4] := by
+  rw [pulls_eq, pulls_eq]; decide +kernel
+example : needResampleTV 1 [1/2, 1/2, 2, 1/4] 4 = 4 ∧ (Desc.resampleTV 3 [1/2, 0, 3]).Valid := by
+  decide +kernel
+example : chainPulls [.resampleTV 1 [1/2, 1/2, 2, 1/4], .skip 1] 30 3 = [2, 2, 4] := by
+  unfold chainPulls; rw [pulls_eq]; decide +kernel
+example : auxNeedEvent (5 / 2) 3 = 1 ∧ auxNeedLag1 3 = 2 := by decide +kernel
 /-- non-interference instantiated: two different continuations after the needed prefix -/
 example : (blocksS 2 1 0).need [1, 2, 3, 99] 2 = some 3 ∧
     ((blocksS 2 1 0).run [1, 2, 3, 4, 5, 6]).take 2 = ((blocksS 2 1 0).run [1, 2, 3, 99]).take 2 := by
